@@ -244,7 +244,19 @@ class AbstractHasAxes(AbstractHasMetadata):
                 raise ValueError("dimensions number mismatch")
             newdims = dict(zip(self.dims, newdims))
         for old in newdims.keys():
-            self.axes[old].name = newdims[old]
+            self.axes[old] # the dimension must exist
+        # all names at once: renaming one dimension after the other by name goes through duplicate names
+        # whenever the new names are a permutation of the old ones
+        names = [newdims.get(old, old) for old in self.dims]
+        for name in names:
+            if not isinstance(name, str):
+                raise TypeError("Axis name must be a string")
+            if not name:
+                raise ValueError("Axis name cannot be empty")
+        if len(set(names)) != len(names):
+            raise ValueError("duplicate dimension names: {}".format(names))
+        for ax, name in zip(self.axes, names):
+            ax.name = name
 
     @property
     def axes(self):
